@@ -12,7 +12,7 @@ import (
 var skeletonCalls = map[string]bool{
 	"execHook": true, "Create": true, "Update": true, "UpdateThreeWayMerge": true, "Delete": true,
 	"Wait": true, "WaitWithJobs": true, "WaitForDelete": true, "recordRelease": true,
-	"failRelease": true, "existingResourceConflict": true, "requireAdoption": true, "installCRDs": true,
+	"failRelease": true, "failRollback": true, "existingResourceConflict": true, "requireAdoption": true, "installCRDs": true,
 	"deleteRelease": true, "purgeReleases": true, "replaceRelease": true, "performInstallCtx": true,
 	"performInstall": true, "performUpgrade": true, "releasingUpgrade": true, "performRollback": true,
 	"Last": true, "Deployed": true, "History": true, "Get": true, "IsReachable": true,
@@ -96,6 +96,7 @@ func emitSkeletons() {
 	emitList("skelUpgradeFail", skeleton(funcDecl(upg, "Upgrade", "failRelease")))
 	emitList("skelRollbackPrepare", skeleton(funcDecl(rb, "Rollback", "prepareRollback")))
 	emitList("skelRollbackPerform", skeleton(funcDecl(rb, "Rollback", "performRollback")))
+	emitList("skelRollbackFail", skeleton(funcDecl(rb, "Rollback", "failRollback")))
 	emitList("skelUninstallRun", skeleton(funcDecl(un, "Uninstall", "Run")))
 	emitList("skelExecHook", skeleton(funcDecl(hk, "Configuration", "execHook")))
 }
